@@ -98,7 +98,7 @@ func (j *scripted) Execute(ctx context.Context) error {
 	if j.onAttempt != nil && fire <= 1 {
 		j.onAttempt(k, ctx)
 	}
-	if out != "ok" && j.spec.DurMs > 0 {
+	if out != "ok" && out != "panic" && j.spec.DurMs > 0 {
 		time.Sleep(time.Duration(j.spec.DurMs) * time.Millisecond)
 	}
 	j.mu.Lock()
@@ -107,6 +107,10 @@ func (j *scripted) Execute(ctx context.Context) error {
 	switch out {
 	case "fail":
 		return errors.New("scripted failure")
+	case "deadline": // the job's own per-attempt timeout, not the scheduler's context
+		return context.DeadlineExceeded
+	case "wrapcancel":
+		return fmt.Errorf("upstream call aborted: %w", context.Canceled)
 	case "panic":
 		panic("scripted panic")
 	}
@@ -257,6 +261,7 @@ func scripts() [][]string {
 		out = append(out, append(rep("fail", k), "ok"))
 	}
 	out = append(out, rep("fail", 12)) // always failing
+	out = append(out, []string{"deadline", "deadline", "ok"}, []string{"wrapcancel", "fail", "deadline", "ok"})
 	for _, j := range []int{0, 1, 2, 4} {
 		out = append(out, append(rep("fail", j), "panic", "ok"))
 	}
